@@ -1,5 +1,6 @@
 import VerifModel.Base.Proto
 import VerifModel.Model.Axis
+import VerifModel.Gen.Axis
 import VerifModel.Spec.Calendar
 /- Driver ops for the axis buckets, date conversions and slicing (C11). -/
 namespace VerifModel.Driver.Axis
@@ -45,6 +46,84 @@ def convInt (fn : String) (x : Int) : Option String :=
   | "rt_unix_datenum" => some (toString (datenumToDate (unixtimeToDatenum x)))
   | _ => none
 
+/-- `d=20000101,20000102;tod=0,6;t=946684800` (any subset of the three keys) or `-` -/
+def parseSubset? (s : String) : Option TimeSubset :=
+  if s == "-" then some {} else
+  (s.splitOn ";").foldlM (init := ({} : TimeSubset)) fun acc part =>
+    match part.splitOn "=" with
+    | ["d", v] => do
+        let xs ← parseInts? v
+        if xs.any (· < 0) then none else some { acc with dates := some (xs.map Int.toNat) }
+    | ["tod", v] => do some { acc with tods := some (← parseInts? v) }
+    | ["t", v] => do some { acc with times := some (← parseInts? v) }
+    | _ => none
+
+/-- the dataset of a `slices` / `slicescli` op after the user's subset: the restricted dimensions and
+the flat index (into the unrestricted `T x L x S` grid) of a case of the restricted dataset;
+`none` where `Data.__init__` exits ("No valid times selected": `-t` leaves no time) -/
+def subsetDataset (D : Dims) (sub : TimeSubset) : Option (Dims × (Case → Nat)) :=
+  let (L, S) := (D.leadtimes.length, D.locs.length)
+  let D' := D.restrict sub.keep
+  let K := keptIdx sub.keep D.times
+  let emptyT : Bool := match sub.times with
+    | none => D.times.isEmpty
+    | some ts => (D.times.filter ts.contains).isEmpty
+  if emptyT then none else
+  some (D', fun c => (K[c.1]?).getD 0 * L * S + c.2.1 * S + c.2.2)
+
+def slicesOp (ax ts ls locs mask sub : String) : Option String := do
+  let k ← Kind.ofName? ax
+  let D : Dims := ⟨← parseInts? ts, ← parseRats? ls, ← parseLocs? locs⟩
+  let sub ← parseSubset? sub
+  let bits := mask.toList
+  if bits.length ≠ D.times.length * D.leadtimes.length * D.locs.length then none else
+  match subsetDataset D sub with
+  | none => some "ERR"
+  | some (D', flat) =>
+    let valid : Case → Bool := fun c => bits[flat c]? == some '1'
+    let showSlice (s : List Case) : String :=
+      if s.isEmpty then "nan" else ",".intercalate (s.map fun c => toString (flat c))
+    some (showRats (axisValues k D') ++ "|" ++ ";".intercalate ((slices k D' valid).map showSlice))
+
+/-- the forecast error the harness writes for flat case `q` (props/c11.py `_offset`) and the one of
+the second file (`_offset2`) -/
+def absQ (x : Rat) : Rat := if x < 0 then -x else x
+def offset1 (q : Nat) : Rat := (((7 * q) % 5 : Nat) : Rat) - 2 + (if q % 3 = 0 then 1 / 2 else 0)
+def offset2 (q : Nat) : Rat := 1 / 4 - offset1 q
+
+/-- `verif f [g] -m obs -agg count | -m mae  -x <axis> -type csv`: number of rows and the score
+column of every file.  obs is missing in case `q` iff `mask[q] = 0` and `q` is even, fcst of file 1
+iff `mask[q] = 0` and `q` is odd, fcst of file 2 iff `mask2[q] = 0`. -/
+def cliOp (ax metric ts ls locs mask sub mask2 : String) : Option String := do
+  let k ← Kind.ofName? ax
+  let D : Dims := ⟨← parseInts? ts, ← parseRats? ls, ← parseLocs? locs⟩
+  let sub ← parseSubset? sub
+  let bits := mask.toList
+  let two := mask2 != "-"
+  let bits2 := mask2.toList
+  let n := D.times.length * D.leadtimes.length * D.locs.length
+  if bits.length ≠ n || (two && bits2.length ≠ n) then none else
+  match subsetDataset D sub with
+  | none => some "ERR"
+  | some (D', flat) =>
+    let m1 : Nat → Bool := fun q => bits[q]? == some '1'
+    let m2 : Nat → Bool := fun q => !two || bits2[q]? == some '1'
+    let showCol (f : List Case → String) (valid : Case → Bool) : String :=
+      let ss := slices k D' valid
+      if ss.isEmpty then "-" else ",".intercalate (ss.map f)
+    match metric with
+    | "count" =>
+      let col := showCol (fun s => toString s.length) (fun c => m1 (flat c) || flat c % 2 == 1)
+      some (toString (axisValues k D').length ++ "|" ++ col ++ (if two then "|" ++ col else ""))
+    | "mae" =>
+      let valid : Case → Bool := fun c => m1 (flat c) && m2 (flat c)
+      let mean (off : Nat → Rat) (s : List Case) : String :=
+        if s.isEmpty then "nan" else
+          showRat ((s.map fun c => absQ (off (flat c))).foldl (· + ·) 0 / (s.length : Rat))
+      some (toString (axisValues k D').length ++ "|" ++ showCol (mean offset1) valid ++
+        (if two then "|" ++ showCol (mean offset2) valid else ""))
+    | _ => none
+
 def handle (args : List String) : Option String :=
   match args with
   | ["bucket", ax, xs] => do
@@ -73,17 +152,16 @@ def handle (args : List String) : Option String :=
       let ts ← parseInts? xs
       let outs ← ts.mapM (convInt fn)
       some (",".intercalate outs)
-  | ["slices", ax, ts, ls, locs, mask, _how] => do
-      let k ← Kind.ofName? ax
-      let D : Dims := ⟨← parseInts? ts, ← parseRats? ls, ← parseLocs? locs⟩
-      let (L, S) := (D.leadtimes.length, D.locs.length)
-      let bits := mask.toList
-      if bits.length ≠ D.times.length * L * S then none else
-      let flat : Case → Nat := fun c => c.1 * L * S + c.2.1 * S + c.2.2
-      let valid : Case → Bool := fun c => bits[flat c]? == some '1'
-      let showSlice (s : List Case) : String :=
-        if s.isEmpty then "nan" else ",".intercalate (s.map fun c => toString (flat c))
-      some (showRats (axisValues k D) ++ "|" ++ ";".intercalate ((slices k D valid).map showSlice))
+  | ["slices", ax, ts, ls, locs, mask, _how] => slicesOp ax ts ls locs mask "-"
+  | ["slices", ax, ts, ls, locs, mask, _how, sub] => slicesOp ax ts ls locs mask sub
+  | ["slicescli", ax, metric, ts, ls, locs, mask, _how, sub, mask2] =>
+      cliOp ax metric ts ls locs mask sub mask2
+  | ["genbucket", "leadtimeday", xs] => do
+      let ls ← parseRats? xs
+      some (showRats (ls.map fun l => ((Gen.Axis.leadtimeday l : Int) : Rat)))
+  | ["genbucket", "timeofday", xs] => do
+      let ts ← parseInts? xs
+      some (showRats (ts.map Gen.Axis.timeofday))
   | ["spec_dates", ks] => do
       -- textbook calendar (Spec): civil date and weekday of the days k1 ≤ k2 ≤ … after 1970-01-01,
       -- by iterating "the day after"
